@@ -582,6 +582,7 @@ def check_messages(ctx, pa):
                                    'existing path, and the absolute path '
                                    'reaches the log / traceback')
                             _check_rendered_as_text(ctx, fi, node, part)
+                            _check_message_channel(ctx, fi, node, part)
                         prev_text = 'x'      # something non-empty follows
             elif isinstance(node, ast.BinOp) and isinstance(
                     node.op, ast.Add):
@@ -621,6 +622,83 @@ def check_messages(ctx, pa):
 
 
 REPR_RENDERED = ('KeyError',)
+
+MESSAGE_CALLS = {'info', 'warn', 'warning', 'error', 'debug', 'add_msg',
+                 'benchmark', 'env', 'print', 'write', 'critical'}
+
+
+def _message_use(node):
+    """the expression is (part of) the text of a raised exception or of a
+    logged / warned message; returns (True, None) or (False, how it is
+    used instead)"""
+    child = node
+    p_ = getattr(node, '_parent', None)
+    while p_ is not None and not isinstance(p_, ast.stmt):
+        if isinstance(p_, ast.Call):
+            f = p_.func
+            nm = f.attr if isinstance(f, ast.Attribute) else getattr(
+                f, 'id', None)
+            if nm in MESSAGE_CALLS:
+                return True, None
+            q_ = getattr(p_, '_parent', None)
+            if isinstance(q_, ast.Raise) and q_.exc is p_:
+                return True, None
+            if nm in ('str', 'format', 'join', 'dedent'):
+                pass
+            else:
+                kw = [k.arg for k in p_.keywords
+                      if k is child or k.value is child]
+                return False, (f'`{kw[0]}=` of `{unparse(f)}(...)`' if kw
+                               else f'an argument of `{unparse(f)}(...)`')
+        elif isinstance(p_, (ast.Dict, ast.List, ast.Tuple, ast.Set,
+                             ast.Subscript)):
+            return False, f'an element of `{unparse(p_)[:40]}`'
+        child = p_
+        p_ = getattr(p_, '_parent', None)
+    if isinstance(p_, ast.Raise):
+        return True, None
+    if isinstance(p_, (ast.Assign, ast.AugAssign)):
+        tg = p_.targets[0] if isinstance(p_, ast.Assign) else p_.target
+        if isinstance(tg, ast.Name):
+            return None, tg.id           # judged by the uses of the local
+        return False, f'stored in `{unparse(tg)[:40]}`'
+    if isinstance(p_, ast.Return):
+        return False, 'returned to the caller'
+    if isinstance(p_, ast.Expr):
+        return True, None
+    return True, None
+
+
+def _check_message_channel(ctx, fi, joined, part):
+    """the word rule above protects a path where it is written into a
+    message.  A string with an absolute path in it that is handed to
+    anything else -- the label of a process or thread, a field of a
+    record, a return value -- can be printed later by code that does not
+    know there is a path inside (in brackets, after a colon, ...), out of
+    reach of the rule.  Text with a path in it is therefore only ever (part
+    of) a raised or logged message."""
+    ok, how = _message_use(joined)
+    if ok is None:
+        # a local: every use of it is a message use (or extends itself)
+        local = how
+        ok, how = True, None
+        for x in ast.walk(fi.node):
+            if isinstance(x, ast.Name) and x.id == local and isinstance(
+                    x.ctx, ast.Load):
+                o, h = _message_use(x)
+                if o is False:
+                    ok, how = False, h
+                    break
+                if o is None and h != local:
+                    ok, how = False, f'copied into `{h}`'
+                    break
+    key = (f'{fi.qual}:#{joined.values.index(part)}@{_ctx_text(joined)}')
+    ctx.ob('R-ROLE/path-in-message/message-only', key, fi.loc(joined), ok,
+           'the text with the path in it is only used as a message' if ok
+           else f'`{unparse(joined)[:60]}` puts the path '
+           f'`{unparse(part.value)}` into a string that is used as {how}: '
+           'whoever prints that later does so outside the word rule the '
+           'sanitiser depends on, and the absolute path reaches the log')
 
 
 def _check_rendered_as_text(ctx, fi, joined, part):
